@@ -29,6 +29,7 @@ func checkC10(c *Ctx) {
 	// each recipient gets its own copy of the {pres} payload
 	c.R.Scoped(func(rule, construct string) bool { return strings.Contains(construct, "Pres") }, c.checkMessageCopyIsDeep)
 	c.checkPayloadFreshPerMessage()
+	c.checkOnlineCountedWithAttach()
 	c.checkIntersectionPairsAreGenerations("C10.7-intersections-pair-generations")
 	// of the module-wide intersection census only the predicates presence depends on (P, R, and J for
 	// "upd")
